@@ -178,6 +178,9 @@ def execute(plan: dict, scratch: str, replay: Optional[dict] = None) -> dict:
             cand = [["listing", s[1], pos, ent] for s in gsteps if s[3] == "list_result"
                     for pos in ("start", "mid", "end")
                     for ent in ("../../outside/file", "data/../../outside", "..")]
+            # ... or the listing of an existing directory RAISES an error class that reads like "nothing there"
+            cand += [["listing", s[1], "start", "RAISE:" + e] for s in gsteps if s[3] == "list_result"
+                     for e in ("FileNotFoundError", "NotADirectoryError", "PermissionError")]
         r.shuffle(cand)
         if plan.get("sample"):
             marker_first = [c for c in cand if mode == "err" and any(s[1] == c[1] and s[4] == "MARKER" for s in gsteps)]
